@@ -11,7 +11,7 @@ from props.C06 import describe, rules
 
 REQUIRED_THEOREMS = ['Usid.C02.reject_atomic', 'Usid.C02.accept_valid', 'Usid.C02.accept_faithful',
                      'Usid.C02.malformed_reuse_rejected']
-RULE = ('[also: a reused ancillary pair without labels / units] [also: dimension values that are descending, shuffled or not distinct] [also: a pair reused from another file whose name is already taken in the target group] [also: an ancillary pair offered for reuse whose Values matrix has another number of dimensions than its Indices matrix] [also: verbose=True, lazy data in several chunks, main_dset_attrs, dimension values as float64 / float32 arrays; stored quantity / units observed] [also: refusals by HDF5 itself after the validation passed - an unknown compression filter, chunks larger than the dataset] [optional dtype= and compression= keyword arguments included; every eleventh case lazy data with an explicit element type] random calls of write_main_dataset: data as numpy / dask / empty shape + dtype, dimension lists whose product '
+RULE = ('[also: lazy data whose computation raises an error class of its own (RuntimeError) while being stored] [also: a reused ancillary pair without labels / units] [also: dimension values that are descending, shuffled or not distinct] [also: a pair reused from another file whose name is already taken in the target group] [also: an ancillary pair offered for reuse whose Values matrix has another number of dimensions than its Indices matrix] [also: verbose=True, lazy data in several chunks, main_dset_attrs, dimension values as float64 / float32 arrays; stored quantity / units observed] [also: refusals by HDF5 itself after the validation passed - an unknown compression filter, chunks larger than the dataset] [optional dtype= and compression= keyword arguments included; every eleventh case lazy data with an explicit element type] random calls of write_main_dataset: data as numpy / dask / empty shape + dtype, dimension lists whose product '
         'equals or differs from the data shape, slow_to_fast in {F,T}, custom prefixes (with "-"), reuse of ancillaries '
         'from the same or another file, wrong argument types, and prior group contents with clashing names of every '
         'kind (Position_*, Spectroscopic_*, the main name); after a rejection the corrected call is retried in the '
@@ -27,7 +27,9 @@ ERRORS = ['none', 'none', 'none', 'none', 'pos_size', 'spec_size', 'pos_type', '
           'reuse_pair', 'reuse_pair',
           # ... or which lacks the description (labels / units) every ancillary dataset must carry: the shapes agree, so
           # the refusal can only come once the finished dataset is examined
-          'reuse_undescribed']
+          'reuse_undescribed',
+          # lazy data whose computation fails with an error class of its own while it is being stored
+          'lazy_fails']
 
 
 def _dims(rng, side, prefix):
@@ -117,7 +119,8 @@ def _args(inp, err):
          'data': inp['data'], 'data_rank_bad': err == 'data_rank', 'empty_no_dtype': err == 'empty_no_dtype',
          'data_bad_type': err == 'data_type', 'bad_compression': err == 'bad_compression', 'bad_chunks': err == 'bad_chunks',
          'reuse_pair_bad': inp.get('reuse_bad_side') if err == 'reuse_pair' else None,
-         'reuse_undescribed': inp.get('reuse_bad_side') if err == 'reuse_undescribed' else None}
+         'reuse_undescribed': inp.get('reuse_bad_side') if err == 'reuse_undescribed' else None,
+         'lazy_fails': err == 'lazy_fails'}
     if err == 'pos_size':
         a['pos'] = copy.deepcopy(a['pos'])
         a['pos'][0]['values'] = a['pos'][0]['values'] + [99]
@@ -182,6 +185,11 @@ def _call(inp, grp, other, a, data_arr):
         data = da.from_array(arr, chunks=chunks) if a['data'] == 'dask' else arr
         if inp.get('kw_dtype') and not a['empty_no_dtype']:
             kw['dtype'] = {'f4': np.float32, 'f8': np.float64}[inp['kw_dtype']]
+    if a.get('lazy_fails'):
+        def _boom(block):
+            raise RuntimeError('the acquisition buffer is gone')
+        kw.pop('dtype', None)
+        data = da.from_array(data_arr, chunks=data_arr.shape).map_blocks(_boom, dtype=data_arr.dtype)
     if inp.get('kw_compression'):
         kw['compression'] = inp['kw_compression']
     if a.get('bad_compression'):
@@ -415,7 +423,7 @@ def _model_req(inp, err, members):
             'name': inp['name'].strip().replace('-', '_'), 'n': a['shape'][0], 'm': a['shape'][1], 'data': data,
             'pos': side('pos', a['pos'], a['pos_bad_type']), 'spec': side('spec', a['spec'], a['spec_bad_type']),
             'pos_prefix': _norm_prefix(inp['pos_prefix']), 'spec_prefix': _norm_prefix(inp['spec_prefix']),
-            'members': members, 'storage_ok': not (a.get('bad_compression') or a.get('bad_chunks'))}
+            'members': members, 'storage_ok': not (a.get('bad_compression') or a.get('bad_chunks') or a.get('lazy_fails'))}
 
 
 def model_requests_obs(inp, obs):
